@@ -25,6 +25,8 @@ def gen_case(rng, tier):
 
     def add(id_, md=None, sz=None):
         v = rand_vec(rng, dim, q)
+        if rng.random() < 0.3:
+            v = [x * rng.choice([3.0, 12.0, -5.0]) for x in v]       # components outside [-1, 1] (clamped by the fixed-point encodings)
         md = meta_of(rng, sz if sz is not None else size) if md is None else md
         cmds.append('add %d %s %s' % (id_, md.hex() or '-', ' '.join(str(bits(x)) for x in v)))
         spec[id_] = (md, [stored(q, x) for x in v])
